@@ -84,19 +84,30 @@ def _composite_normals(rep, rng, shapes, N):
                 for idx in np.ndindex(*shape):
                     sv, ib = d[idx][0], d[idx][1:]
                     cr = np.outer(sv, v[idx]); 
-                    if np.max(np.abs(cr - cr.T)) > 1e-8:
+                    if not np.all(np.abs(cr - cr.T) <= 1e-8):
                         rep.fail("composite_normal_row", f"index {idx}", inp); return
-                    if np.max(np.abs(np.einsum('ki,ij,kj->k', ib, J, ib))) > 1e-8 or np.max(np.abs(ib @ J @ v[idx])) > 1e-8:
+                    if not np.all(np.abs(np.einsum('ki,ij,kj->k', ib, J, ib)) <= 1e-8) or not np.all(np.abs(ib @ J @ v[idx]) <= 1e-8):
                         rep.fail("composite_ideal_basis", f"index {idx}", inp); return
                 R = Hp.reflection_across().proj_data
-                if R.shape != shape + (n + 1, n + 1) or np.max(np.abs(R @ J @ np.swapaxes(R, -1, -2) - J)) > 1e-8:
+                if R.shape != shape + (n + 1, n + 1) or not np.all(np.abs(R @ J @ np.swapaxes(R, -1, -2) - J) <= 1e-8):
                     rep.fail("composite_reflection", "reflection of a composite hyperplane is not an array of isometries", inp); return
                 back = h.Hyperplane.from_reflection(h.Isometry(R.copy()))
                 bsv = back.spacelike_vector.reshape(shape + (n + 1,))
                 for idx in np.ndindex(*shape):
                     cr = np.outer(bsv[idx], v[idx])
-                    if np.max(np.abs(cr - cr.T)) > 1e-6:
+                    if not np.all(np.abs(cr - cr.T) <= 1e-6):
                         rep.fail("from_reflection_recovers_wall", f"index {idx}", inp); return
+                if n == 2:          # in dimension 2 the wall of each reflection of the composite is a geodesic
+                    G = h.Geodesic.from_reflection(h.Isometry(R.copy()))
+                    e = G.proj_data.reshape(shape + (2, n + 1)) if G.proj_data.size == int(np.prod(shape, dtype=int)) * 2 * (n + 1) else None
+                    if e is None:
+                        rep.fail("geodesic_from_reflection_shape", f"{G.proj_data.shape} for reflections of shape {shape}", inp); return
+                    for idx in np.ndindex(*shape):
+                        if not np.all(np.abs(e[idx] @ J @ v[idx]) <= 1e-6) or not np.all(np.abs(np.einsum('ki,ij,kj->k', e[idx], J, e[idx])) <= 1e-6):
+                            rep.fail("geodesic_from_reflection", f"index {idx}: endpoints are not the ideal points of the wall of that reflection", inp); return
+                        cr2 = np.outer(e[idx][0], e[idx][1])
+                        if np.all(np.abs(cr2 - cr2.T) <= 1e-9 * np.max(np.abs(cr2))):
+                            rep.fail("geodesic_from_reflection", f"index {idx}: the two endpoints coincide", inp); return
             rep.attempt("composite_hyperplane_runs", inp, body)
             rep.case(key=(t, shape), nontrivial=shape != (), sample={"n": n, "shape": list(shape)} if t == 0 else None)
 
@@ -132,15 +143,15 @@ def reflections_and_fixed_points(tier, rng, rep):
             R = h.Hyperplane(v.copy()).reflection_across()
             Hb = h.Hyperplane.from_reflection(R).flatten_to_unit()[0]     # (a unit reflection comes back as a composite of shape (1,))
             cr = np.outer(Hb.spacelike_vector, v)
-            if np.max(np.abs(cr - cr.T)) > 1e-6:
+            if not np.all(np.abs(cr - cr.T) <= 1e-6):
                 rep.fail("from_reflection_recovers_wall", f"{Hb.spacelike_vector} vs {v}", inp)
             ib = Hb.ideal_basis
-            if np.max(np.abs(np.einsum('ki,ij,kj->k', ib, J, ib))) > 1e-6 or np.max(np.abs(ib @ J @ v)) > 1e-6:
+            if not np.all(np.abs(np.einsum('ki,ij,kj->k', ib, J, ib)) <= 1e-6) or not np.all(np.abs(ib @ J @ v) <= 1e-6):
                 rep.fail("from_reflection_ideal_basis", "ideal basis of the recovered wall is not null / not in the wall", inp)
             if n == 2:
                 G = h.Geodesic.from_reflection(R)
                 e = G.proj_data.reshape(-1, n + 1)
-                if np.max(np.abs(e @ J @ v)) > 1e-6 or np.max(np.abs(np.einsum('ki,ij,kj->k', e, J, e))) > 1e-6:
+                if not np.all(np.abs(e @ J @ v) <= 1e-6) or not np.all(np.abs(np.einsum('ki,ij,kj->k', e, J, e)) <= 1e-6):
                     rep.fail("geodesic_from_reflection", "endpoints are not the ideal points of the wall", inp)
             return R
         R = rep.attempt("reflection_roundtrip_runs", inp, refl)
@@ -172,7 +183,7 @@ def reflections_and_fixed_points(tier, rng, rep):
                 try:
                     Hg = h.Hyperplane.from_reflection(Mg).flatten_to_unit()[0]
                     Rg = Hg.reflection_across().proj_data
-                    if np.max(np.abs(Rg - Mg.proj_data)) > 1e-6:
+                    if not np.all(np.abs(Rg - Mg.proj_data) <= 1e-6):
                         rep.fail("coxeter_generator_is_reflection_across_its_wall", f"{pqr} {g}", {"triangle": list(pqr), "generator": g})
                 except Exception as e:
                     rep.fail("coxeter_generator_is_reflection_across_its_wall", f"{pqr} {g}: raised {type(e).__name__}: {e}", {"triangle": list(pqr), "generator": g})
@@ -208,7 +219,7 @@ def _fixed_points(rep, rng, N, dims, allowed):
                     x = fp[j]
                     img = x @ M[j]
                     cr = np.outer(img, x)
-                    if np.max(np.abs(cr - cr.T)) > 1e-6 * max(1, np.max(np.abs(cr))):
+                    if not np.all(np.abs(cr - cr.T) <= 1e-6 * max(1, np.max(np.abs(cr)))):
                         rep.fail("reported_fixed_point_is_fixed", f"unit {j} ({kind})", inp); return
                     q = x @ J @ x / max(x @ x, 1e-300)
                     if q > 1e-6:
@@ -218,7 +229,7 @@ def _fixed_points(rep, rng, N, dims, allowed):
                     if kind == "loxodromic":
                         a, b = pair[j][0], pair[j][1]
                         for y in (a, b):
-                            if abs(y @ J @ y) > 1e-6 * (y @ y):
+                            if not (abs(y @ J @ y) <= 1e-6 * (y @ y)):
                                 rep.fail("loxodromic_endpoints_ideal", f"unit {j}", inp); return
                         la = (a @ M[j]) @ a / (a @ a)
                         lb = (b @ M[j]) @ b / (b @ b)
@@ -245,5 +256,15 @@ def fixed_points_loxodromic_higher_dim(tier, rng, rep):
 @bounded(P, "fixed_points_elliptic_higher_dim", functions=[H + "Isometry._fixpoint_data", H + "Isometry.fixed_point"],
          note="H^3, H^4: conjugated rotations (known finding: LAPACK's basis of the eigenvalue-1 eigenspace need not contain a timelike vector)")
 def fixed_points_elliptic_higher_dim(tier, rng, rep):
-    rep.rule = "dimension 3,4; elliptic conjugates; composite size 1..4"; rep.bound = "30 / 150 rounds"
+    rep.rule = "dimension 3,4; elliptic conjugates; composite size 1..4; first the recorded instance of the known finding"; rep.bound = "1 + 30 / 150 rounds"
+    # the recorded instance of the known finding (so that it is reported on every run, not only when sampling hits it)
+    v0, th0 = np.array([-0.03753732, -0.03608916, -0.5655239]), 2.6654312701374803
+    C0 = h.Point(v0.copy(), model="klein").origin_to()
+    M0 = C0 @ h.Isometry.standard_rotation(th0, dimension=3) @ C0.inv()
+    x0 = M0.fixed_point().proj_data
+    cr0 = np.outer(x0 @ M0.proj_data, x0)
+    J3 = spec.J(4)
+    if not np.all(np.abs(cr0 - cr0.T) <= 1e-6) or x0 @ J3 @ x0 / (x0 @ x0) > -1e-6:
+        rep.fail("reported_fixed_point_is_fixed", "recorded instance: conjugate of the standard rotation of H^3 by origin_to(klein point)", {"klein_point": v0.tolist(), "angle": th0})
+    rep.case(key="recorded")
     _fixed_points(rep, rng, 150 if tier == 'thorough' else 30, [3, 4], ["elliptic"])
